@@ -165,6 +165,7 @@ func (w *World) scopeOf(prop string) []*propScope {
 type buildResult struct {
 	obls        []*Obligation
 	outOfSubset []string
+	unboundClauses []string
 	notes       map[string]bool
 	nFuncs      int
 	funcs       []string
@@ -240,6 +241,9 @@ func (w *World) buildProperty(prop string) *buildResult {
 		}
 		br.nFuncs++
 		br.funcs = append(br.funcs, FuncKey(sc.fn))
+		for _, u := range v.unboundClauses {
+			br.unboundClauses = append(br.unboundClauses, FuncKey(sc.fn)+"#"+u)
+		}
 		for n := range v.notes {
 			br.notes[n] = true
 		}
@@ -704,6 +708,9 @@ func cmdCheck(args []string) int {
 	for _, id := range missing {
 		fmt.Printf("MISSING property=%s obligation-group=%q (function or expression no longer present; not a violation by itself)\n", *prop, id)
 	}
+	for _, u := range br.unboundClauses {
+		fmt.Printf("UNBOUND-CLAUSE %s (the clause names something the function no longer has; no obligation is generated for it, the other clauses of the function are checked)\n", u)
+	}
 	for _, u := range br.outOfSubset {
 		fmt.Printf("OUT-OF-SUBSET %s\n", u)
 	}
@@ -733,6 +740,7 @@ func cmdCheck(args []string) int {
 		"new_undecided":            undecidedNew,
 		"missing_locked":           missing,
 		"out_of_subset":            br.outOfSubset,
+		"unbound_clauses":          br.unboundClauses,
 		"unbound_contracts":        w.Contracts.Unbound,
 		"known_findings":           knownPrinted,
 		"contract_files":           w.Contracts.Files,
